@@ -14,6 +14,6 @@ UNITS = [VIO.unit_reader_rows(), VIO.unit_writer_init(), CK.unit_check_resets(),
 from contracts import structure as ST
 UNITS += [ST.unit_no_hidden_state()]
 UNITS += [APP.unit_app_validate().also("C08"), APP.unit_set_cid_from_path()]
-UNITS += [VIO.unit_reader_close(), VIO.unit_reset_checks()]
+UNITS += [VIO.unit_reset_checks()]
 from props import _groups as _G
 UNITS = _G.with_groups(PROPERTY, UNITS, _G.READERS, _G.VALIDATION, _G.CHECKS, _G.WRITERS)
